@@ -47,12 +47,13 @@ def gen_cases(rng, tier):
                 dtwgen.derived(case)
         cases.append(case)
     # short series with large relaxations: the neighbours of a marked corner are border cells
-    m = 300 if tier == "quick" else 3000
+    m = 600 if tier == "quick" else 6000
     for k in range(m):
         short = 1 if k % 3 else 2
         long_ = rng.randint(1, 5)
         r, c = (short, long_) if k % 2 else (long_, short)
-        case = {"site": "py.warping_path", "ndim": 1, "s1": dtwgen.rand_series(rng, r, 1),
+        case = {"site": ("py.warping_path", "c.warping_path", "c.best_path_compact", "py.warping_path")[k % 4],
+                "ndim": 1, "s1": dtwgen.rand_series(rng, r, 1),
                 "s2": dtwgen.rand_series(rng, c, 1),
                 "settings": dtwgen.rand_settings(rng, r, c, allow_psi=False, allow_mld=False, allow_max_step=False)}
         case["settings"]["psi"] = [rng.choice([0, rng.randint(0, r)]), rng.randint(0, r + 1),
